@@ -85,7 +85,9 @@ func hyperSteps(c *Ctx, rule string) {
 			}
 			salt := p.Inline(p.TermOf(cc.Args[0]), 3)
 			okSalt := salt.Has(func(t *Term) bool { return t.IsField("serialized", func(b *Term) bool { return b.IsParam(par, 0) }) }) ||
-				salt.Has(func(t *Term) bool { return t.Op == "call" && t.Fn != nil && t.Fn.Name() == "Bytes" && len(t.Args) == 1 && t.Args[0].IsParam(par, 0) })
+				salt.Has(func(t *Term) bool {
+					return t.Op == "call" && t.Fn != nil && t.Fn.Name() == "Bytes" && len(t.Args) == 1 && t.Args[0].IsParam(par, 0)
+				})
 			elems, ok := variadicElems(cc.Args[1])
 			if !ok {
 				c.Fail(rule, label, in.Pos(), "data operands of Salted are not an explicit argument list")
